@@ -60,7 +60,10 @@ public:
       buffer = (byte*)new char[size + 1];
     }
     else if(!buffer)
+    {
+      bufferEnd = bufferStart;
       return *this;
+    }
     Memory::copy(buffer, other.bufferStart, size);
     bufferStart = buffer;
     bufferEnd = buffer + size;
@@ -77,7 +80,10 @@ public:
       buffer = (byte*)new char[size + 1];
     }
     else if(!buffer)
+    {
+      bufferEnd = bufferStart;
       return;
+    }
     Memory::copy(buffer, data, size);
     bufferStart = buffer;
     bufferEnd = buffer + size;
@@ -172,6 +178,8 @@ public:
         *bufferEnd = 0;
       }
     }
+    else
+      bufferEnd = bufferStart;
   }
 
   void removeFront(usize size)
